@@ -262,6 +262,8 @@ func adapters(r *lib.Report) (int64, int64) {
 
 type plainStruct struct{ A int }
 
+type ptrStruct struct{ P *int }
+
 type probe struct {
 	name string
 	v    interface{}
@@ -415,6 +417,69 @@ func patterns(r *lib.Report, tier string, samples *[]interface{}) (int64, int64)
 		}
 		if len(*samples) < 3 && len(ord) == 4 {
 			*samples = append(*samples, map[string]interface{}{"pattern_list": names, "probes": len(probes)})
+		}
+	}
+	// equality patterns: the test is Go's == on the two interface values (same dynamic type and equal
+	// value; pointers by identity, structs field by field with pointer fields by identity)
+	five2 := 5
+	eqProbes := append(append([]probe{}, probes...), probe{"*int other pointer to 5", &five2},
+		probe{"struct with pointer field (same pointer)", ptrStruct{&five}}, probe{"struct with pointer field (other pointer to 5)", ptrStruct{&five2}},
+		probe{"plainStruct{3} again", plainStruct{3}}, probe{"int 5", 5})
+	eqVals := []struct {
+		name string
+		v    interface{}
+	}{{"7", 7}, {"&five", &five}, {"ptrStruct{&five}", ptrStruct{&five}}, {"plainStruct{3}", plainStruct{3}}, {"\"abc\"", "abc"}, {"nil", nil}}
+	var eqSpecs []patSpec
+	for _, ev := range eqVals {
+		ev := ev
+		eqSpecs = append(eqSpecs, patSpec{"Equal(" + ev.name + ")", func(t string) fpgo.Pattern { return fpgo.InCaseOfEqual(ev.v, eff(t)) },
+			func(v interface{}) bool { return ev.v == v }})
+	}
+	eqSpecs = append(eqSpecs, specs[5])
+	var eqOrders [][]int
+	var gen2 func(cur []int, used int)
+	gen2 = func(cur []int, used int) {
+		eqOrders = append(eqOrders, append([]int{}, cur...))
+		if len(cur) == 3 && tier != "thorough" {
+			return
+		}
+		for i := range eqSpecs {
+			if used&(1<<i) == 0 {
+				gen2(append(cur, i), used|1<<i)
+			}
+		}
+	}
+	gen2(nil, 0)
+	for _, ord := range eqOrders {
+		states++
+		var ps []fpgo.Pattern
+		var names []string
+		for _, i := range ord {
+			ps = append(ps, eqSpecs[i].mk(eqSpecs[i].name))
+			names = append(names, eqSpecs[i].name)
+		}
+		pm := fpgo.DefPattern(ps...)
+		for _, pb := range eqProbes {
+			trans++
+			val := pb.v
+			if rv := reflect.ValueOf(pb.v); pb.v != nil && rv.Kind() == reflect.Ptr && !rv.IsNil() && rv.Elem().Kind() == reflect.Struct {
+				val = rv.Elem().Interface()
+			}
+			want := "PANIC"
+			for _, i := range ord {
+				if eqSpecs[i].accepts(val) {
+					want = eqSpecs[i].name + ":" + render(val)
+					break
+				}
+			}
+			got := ""
+			if p := lib.Catch(func() { got = fmt.Sprint(pm.MatchFor(pb.v)) }); p != "" {
+				got = "PANIC"
+			}
+			if got != want {
+				r.Violation(fmt.Sprintf("C20|match-equal|probe=%s", pb.name), fmt.Sprintf("patterns %v, value %s: MatchFor gave %s, the first pattern whose value == the probe gives %s", names, pb.name, got, want),
+					map[string]interface{}{"patterns": names, "probe": pb.name, "got": got, "want": want})
+			}
 		}
 	}
 	// Either is MatchFor over the same list
